@@ -193,6 +193,22 @@ class ConstructInterface(Interface):
                 out.append((s2, Raised(VExc(ec, self.exc_path(eng, s2, path, what), origin='sub-construct %s %s failed' % (sc.label, what), explicit_path=True))))
         return out
 
+    def instantiate_rt(self, eng, st, sc, o, ok, val, end):
+        """round-trip trait of a sub-construct (induction hypothesis of C01), instantiated against every earlier build
+        of the same sub-construct in this ghost program: if the bytes it wrote stand at the current position (and, for the
+        stream as a whole, at least that many bytes are available), parsing succeeds, returns the value build returned and
+        ends right after them.  Context agreement is assumed (the sub-construct reads the context only at keys on which the
+        building and the parsing context agree)."""
+        i = t.var('rt!', t.INT)
+        for ent in st.log:
+            if ent[0] != 'build' or ent[1].smt() != sc.ident.smt():
+                continue
+            _, _, o_b, c_b, H_b, D_b, ov, ret, w = ent
+            n = w.len
+            same = t.forall([i], t.implies(t.and_(t.le(o.pos, i), t.lt(i, t.add(o.pos, n))), t.eq(t.select(o.buf, i), t.select(w.arr, t.sub(i, o.pos)))),
+                            pats=[[t.select(o.buf, i)]])
+            st.assume(t.implies(t.and_(same, t.le(t.add(o.pos, n), o.len)), t.and_(ok, t.app('pyeq', t.BOOL, val, ret), t.eq(end, t.add(o.pos, n)))))
+
     def sub_parse(self, eng, sc, stream, ctx, path, st):
         o = st.get(stream) if isinstance(stream, VRef) else None
         if isinstance(o, OObject) and o.cls == 'RestreamedBytesIO':
@@ -219,6 +235,8 @@ class ConstructInterface(Interface):
             val, ec = t.app('P_val', t.VAL, *a), t.app('P_exc', t.INT, *a)
             H2, D2 = t.app('P_H', 'Heap', *a), t.app('P_D', 'Dom', *a)
             end = t.app('P_end', t.INT, *a)
+        if getattr(self, 'ghost', False) and o.model != 'adv':
+            self.instantiate_rt(eng, st, sc, o, ok, val, end)
         good, bad = eng.fork(st, ok)
         if good is not None:
             if o.model != 'adv':
